@@ -7,6 +7,7 @@ import (
 	"os"
 
 	v1 "k8s.io/api/core/v1"
+	resourceapi "k8s.io/api/resource/v1"
 	schedulingv1 "k8s.io/api/scheduling/v1"
 	"k8s.io/apimachinery/pkg/runtime"
 
@@ -35,6 +36,15 @@ type Objects struct {
 	PriorityClasses []*schedulingv1.PriorityClass     `json:"priorityClasses,omitempty"`
 	Topologies      []*kaiv1alpha1.Topology           `json:"topologies,omitempty"`
 	ConfigMaps      []*v1.ConfigMap                   `json:"configMaps,omitempty"`
+	// Dynamic Resource Allocation (resource.k8s.io/v1); empty unless the generator's DRA knob fired
+	DeviceClasses  []*resourceapi.DeviceClass   `json:"deviceClasses,omitempty"`
+	ResourceSlices []*resourceapi.ResourceSlice `json:"resourceSlices,omitempty"`
+	ResourceClaims []*resourceapi.ResourceClaim `json:"resourceClaims,omitempty"`
+}
+
+// HasDRA reports whether the object set contains any resource.k8s.io object.
+func (o *Objects) HasDRA() bool {
+	return len(o.DeviceClasses)+len(o.ResourceSlices)+len(o.ResourceClaims) > 0
 }
 
 func (o *Objects) All() []runtime.Object {
@@ -52,6 +62,15 @@ func (o *Objects) All() []runtime.Object {
 		out = append(out, x)
 	}
 	for _, x := range o.ConfigMaps {
+		out = append(out, x)
+	}
+	for _, x := range o.DeviceClasses {
+		out = append(out, x)
+	}
+	for _, x := range o.ResourceSlices {
+		out = append(out, x)
+	}
+	for _, x := range o.ResourceClaims {
 		out = append(out, x)
 	}
 	for _, x := range o.PodGroups {
